@@ -337,12 +337,20 @@ func (p *ParagraphReader) decodeClearsig(keyring *openpgp.EntityList) error {
 		return nil
 	}
 
+	/* Read the whole armored signature first: the armor's checksum is only
+	 * compared once its body has been read to the end, and the signature
+	 * check stops reading after the first packet it can use. */
+	signature, err := ioutil.ReadAll(block.ArmoredSignature.Body)
+	if err != nil {
+		return err
+	}
+
 	/* Now, we have to go ahead and check that the signature is valid and
 	 * relates to an entity we have in our keyring */
 	signer, err := openpgp.CheckDetachedSignature(
 		keyring,
 		bytes.NewReader(block.Bytes),
-		block.ArmoredSignature.Body,
+		bytes.NewReader(signature),
 	)
 
 	if err != nil {
